@@ -8,7 +8,7 @@
    nonsys e (route_pools r) a : a is not the pool, rebalance-treasury or revenue address of a pool on the route.
    ind c x = if c then x else 0.  All choices (priced amounts, fees, bonus, failures) are universally quantified. *)
 From Coq Require Import ZArith List Bool Arith.
-From Elys Require Import Base.Res Base.Fn Models.SwapQueue Proofs.SwapQueueProofs Proofs.SwapBatchProofs.
+From Elys Require Import Base.Res Base.Fn Models.SwapQueue Proofs.SwapQueueProofs Proofs.SwapBatchProofs Proofs.SwapRevisitProofs.
 Import ListNotations.
 Open Scope Z_scope.
 
@@ -75,6 +75,47 @@ Theorem C04_exact_in_debit_credit : forall coded e b r c b',
   (Forall (fun h => h_bonus h <= 0) (c_hops c) -> forall a d, req_bonus r c a d = 0).
 Proof. exact exact_in_debit_credit. Qed.
 Print Assumptions C04_exact_in_debit_credit.
+
+(* Exact-in, EVERY hop list - no premise that the pools of the route are distinct: a route may use one pool on several
+   hops (there and back, A-B-A, the last pool on an earlier hop too). By induction over the hops:
+   - the sender's stated input denom moves by exactly -TokenIn (+ the final output when it is its own recipient and the
+     route is cyclic, + weight bonuses); no other denom of the sender ever decreases, and it changes by weight bonuses only;
+   - a recipient other than the sender is touched in the denom leaving the LAST hop only (bonuses included), by at least
+     the minimum: the output of every earlier hop, whatever pool it uses, goes to the sender and is the next hop's input;
+   - when no pool of the route pays a weight bonus, every denom other than the paid and the received one - every denom the
+     route only passes through - is exactly unchanged for sender and recipient. *)
+Theorem C04_exact_in_intermediate_denoms_untouched : forall coded e b r c b',
+  r_kind r = KIn -> settle_gen coded e b r c = Ok b' ->
+  (nonsys e (route_pools r) (r_sender r) ->
+     b' (r_sender r) (r_denom r) =
+       b (r_sender r) (r_denom r) - r_amt r
+       + ind (Nat.eqb (r_sender r) (r_rcpt r) && Nat.eqb (r_denom r) (in_out_denom r c)) (in_out_amt r c)
+       + req_bonus r c (r_sender r) (r_denom r) /\
+     (forall d, d <> r_denom r -> (r_sender r <> r_rcpt r \/ d <> in_out_denom r c) ->
+        b' (r_sender r) d = b (r_sender r) d + req_bonus r c (r_sender r) d) /\
+     (forall d, d <> r_denom r -> b (r_sender r) d <= b' (r_sender r) d)) /\
+  (r_rcpt r <> r_sender r -> nonsys e (route_pools r) (r_rcpt r) ->
+     (forall d, d <> in_out_denom r c -> b' (r_rcpt r) d = b (r_rcpt r) d) /\
+     b (r_rcpt r) (in_out_denom r c) + in_out_amt r c <= b' (r_rcpt r) (in_out_denom r c) /\
+     r_limit r <= in_out_amt r c) /\
+  (Forall (fun h => h_bonus h <= 0) (c_hops c) ->
+     forall a, a = r_sender r \/ a = r_rcpt r -> nonsys e (route_pools r) a ->
+     forall d, d <> r_denom r -> d <> in_out_denom r c -> b' a d = b a d).
+Proof. exact exact_in_intermediate_denoms_untouched. Qed.
+Print Assumptions C04_exact_in_intermediate_denoms_untouched.
+
+(* "Last hop" means last POSITION. Route pool 1 (denom 0 -> 1), pool 1 (denom 1 -> 0), sender 1, recipient 2, minimum 1:
+   the coded hop loop takes 1000 of denom 0 from the sender, pays 990 of denom 0 to the recipient and leaves denom 1 of
+   both untouched; the same loop with the last hop recognised by its pool id ([in_loop_by_pool], not the code) hands the
+   first hop's 199 of denom 1 to the recipient and takes the second hop's input from the sender's own holdings. *)
+Theorem C04_last_hop_is_by_position_witness :
+  (exists b', settle wit_env rv_bank rv_req rv_choice = Ok b' /\
+     b' 1%nat 0%nat = rv_bank 1%nat 0%nat - 1000 /\ b' 1%nat 1%nat = rv_bank 1%nat 1%nat /\
+     b' 2%nat 0%nat = rv_bank 2%nat 0%nat + 990 /\ b' 2%nat 1%nat = rv_bank 2%nat 1%nat) /\
+  (exists b', in_loop_by_pool 1 wit_env 1 2 (r_hops rv_req) (c_hops rv_choice) 1 0 1000 rv_bank = Ok b' /\
+     b' 1%nat 1%nat = rv_bank 1%nat 1%nat - 199 /\ b' 2%nat 1%nat = rv_bank 2%nat 1%nat + 199).
+Proof. exact last_hop_by_pool_id_differs. Qed.
+Print Assumptions C04_last_hop_is_by_position_witness.
 
 (* Exact-out, code as it is AND repaired, any route: a recipient other than the sender gains at least TokenOut in the
    output denom and loses nothing in any denom; nobody else (outside the pools' own addresses) is touched. *)
